@@ -404,6 +404,9 @@ type Conn struct {
 	// ForeignTimeouts counts the timed-out writes whose governing deadline was
 	// armed by another task than the one writing.
 	ForeignTimeouts int
+	// OwnTimeoutSteps: scheduler step of every timed-out write whose deadline the
+	// writing task had armed itself.
+	OwnTimeoutSteps []int
 	wdeadlineBy     *kernel.Task
 	OnClose         func()
 }
@@ -440,6 +443,8 @@ func (c *Conn) Write(b []byte) (int, error) {
 			c.Timeouts++
 			if by != c.Out.wtask() {
 				c.ForeignTimeouts++
+			} else if c.Out.S != nil {
+				c.OwnTimeoutSteps = append(c.OwnTimeoutSteps, c.Out.S.Now())
 			}
 			return 0, ErrTimeout
 		}
